@@ -81,11 +81,12 @@ func discharge(dir string, qs []*Query, timeout time.Duration) []Verdict {
 					out[i] = Verdict{Q: qs[i], Result: "skipped", Backend: "none"}
 					continue
 				}
-				tried++
 				v := runQuery(dir, qs[i], 1500*time.Millisecond, false)
 				out[i] = v
 				if v.Result == "sat" {
 					found = true
+				} else if v.Result != "unsat" {
+					tried++ // only undecided (slow) attempts count against the budget; refuted paths are cheap
 				}
 			}
 		}(ids)
